@@ -162,7 +162,11 @@ func execRtE2E(args []string) string {
 				return
 			}
 			for k := range fit.Messages {
-				seqs = append(seqs, fmt.Sprintf("S%d:%s", ns, dapiMesg(&fit.Messages[k])))
+				if kvm["px"] == "1" {
+					seqs = append(seqs, fmt.Sprintf("S%d:%s", ns, e2eMaskedMesg(&fit.Messages[k], dfac)))
+				} else {
+					seqs = append(seqs, fmt.Sprintf("S%d:%s", ns, dapiMesg(&fit.Messages[k])))
+				}
 			}
 			decoded = append(decoded, fit)
 			ns++
@@ -173,11 +177,76 @@ func execRtE2E(args []string) string {
 	// the last sentence of the property: the messages the decoder returned, handed to a new encoder with the same options
 	// and the real validator, then decoded again, come back the same
 	re := "-"
-	if decS == "end" && ns > 0 {
+	if decS == "end" && ns > 0 && kvm["px"] != "1" {
 		re = e2eReencode(decoded, arch, kvm, rest[:3], dfac, do)
 	}
 	out = append(out, "re="+re)
 	return strings.Join(out, " ")
+}
+
+// e2eCompDests: the field numbers of message m that are the destination of a component of some field (or sub-field) of that
+// message in the decoder's factory (nil = the standard factory)
+func e2eCompDests(mn typedef.MesgNum, dfac *dapiFactory) map[byte]bool {
+	seen := map[byte]bool{}
+	for n := 0; n < 256; n++ {
+		var f proto.Field
+		if dfac != nil {
+			f = dfac.CreateField(mn, byte(n))
+		} else {
+			f = factory.StandardFactory().CreateField(mn, byte(n))
+		}
+		if f.FieldBase == nil || f.Name == factory.NameUnknown {
+			continue
+		}
+		for _, c := range f.Components {
+			seen[c.FieldNum] = true
+		}
+		for _, sf := range f.SubFields {
+			for _, c := range sf.Components {
+				seen[c.FieldNum] = true
+			}
+		}
+	}
+	return seen
+}
+
+// e2eMaskedMesg: a decoded message for the comparison of reading (ii) of the property (component expansion ON): the fields
+// created by expansion are left out, and the VALUE of a wire field that is the destination of a component of its message is
+// masked (flag m, value u8:00) — expansion may overwrite it
+func e2eMaskedMesg(m *proto.Message, dfac *dapiFactory) string {
+	dests := e2eCompDests(m.Num, dfac)
+	c := *m
+	c.Fields = nil
+	var masked []int
+	for i := range m.Fields {
+		f := m.Fields[i]
+		if f.IsExpandedField {
+			continue
+		}
+		if dests[f.Num] {
+			f.Value = proto.Uint8(0)
+			masked = append(masked, len(c.Fields))
+		}
+		c.Fields = append(c.Fields, f)
+	}
+	s := dapiMesg(&c)
+	if len(masked) == 0 {
+		return s
+	}
+	// mark the masked fields: flag letter m appended to the flags of the field
+	head, body, _ := strings.Cut(s, "{")
+	fl, dl, _ := strings.Cut(body, "|")
+	fs := strings.Split(fl, ";")
+	for _, i := range masked {
+		p := strings.SplitN(fs[i], ":", 4)
+		if p[2] == "-" {
+			p[2] = "m"
+		} else {
+			p[2] += "m"
+		}
+		fs[i] = strings.Join(p, ":")
+	}
+	return head + "{" + strings.Join(fs, ";") + "|" + dl
 }
 
 // what the property compares of a decoded message (fields created by component expansion are not part of it)
@@ -528,15 +597,26 @@ func e2eEmit(emit func(string), rng *Rng, o e2eOpts, files []e2eFile, dfac strin
 		}
 	}
 	hdr := lb.header(o.preserve, all)
+	px := ""
 	if std && o.exp == 1 {
 		for _, f := range files {
 			if e2eHasComponents(f.msgs) {
-				o.exp = 0
+				// fields with components under the STANDARD factory: the model has no component graph for it, so the line
+				// either runs with expansion off, or (px=1) with expansion ON and both sides print the messages without the
+				// expanded fields and with the destinations of components masked — reading (ii) of the property on the real
+				// default decoder against the model's expansion-off answer
+				if rng.Bool() {
+					o.exp = 0
+				} else {
+					px = " px=1"
+					count("expansion-on:std-components")
+				}
+				break
 			}
 		}
 	}
 	var sb strings.Builder
-	fmt.Fprintf(&sb, "rte2e a=%d h=%d l=%d pv=%d chk=%d exp=%d %s df:%s", o.arch, o.hopt, o.lmt, o.pv, o.chk, o.exp, hdr, dfac)
+	fmt.Fprintf(&sb, "rte2e a=%d h=%d l=%d pv=%d chk=%d exp=%d%s %s df:%s", o.arch, o.hopt, o.lmt, o.pv, o.chk, o.exp, px, hdr, dfac)
 	for _, f := range files {
 		fmt.Fprintf(&sb, " H%d.%d.%d", f.hsize, f.hpv, f.hprof)
 		for i := range f.msgs {
@@ -919,6 +999,8 @@ func genRtE2E(emit func(string), tier string, rng *Rng) {
 		count("random")
 		count(fmt.Sprintf("random:files=%d", len(files)))
 	}
+	// --- h. the last sentence of the property on ARBITRARY decoder output: fixtures, structure-aware mutants, … (op `redec`)
+	genReDec(emit, tier, rng.Fork(0x7ede))
 	_ = sort.Strings
 	_ = hex.EncodeToString
 }
